@@ -142,6 +142,18 @@ func Run(dir string, env []string, name string, args ...string) ([]byte, error) 
 	return buf.Bytes(), err
 }
 
+// runSplit executes a command and returns stdout only.
+func runSplit(dir string, env []string, name string, args ...string) ([]byte, error) {
+	cmd := exec.Command(name, args...)
+	cmd.Dir = dir
+	cmd.Env = env
+	var so, se bytes.Buffer
+	cmd.Stdout = &so
+	cmd.Stderr = &se
+	err := cmd.Run()
+	return so.Bytes(), err
+}
+
 // CopyTree copies src to dst, skipping .git. Symlinks are copied as links.
 func CopyTree(src, dst string) error {
 	return filepath.WalkDir(src, func(p string, d fs.DirEntry, err error) error {
